@@ -98,9 +98,9 @@ theorem appliesOnly_read (Q : Req → Prop) (r : Req) (c : Resp → P) (s : Stor
 /-- requests that are reads, or writes of a role satisfying `W` -/
 def RoleWrites (W : Role → Prop) : Req → Prop
   | .createRole x => W x
-  | .updateRole x => W x
+  | .updateRole x _ => W x
   | .createBinding _ => False
-  | .updateBinding _ => False
+  | .updateBinding _ _ => False
   | _ => True
 
 theorem applyRoles_issues (W : Role → Prop) (uid : String) (roles : List Role)
@@ -118,7 +118,7 @@ theorem applyRoles_issues (W : Role → Prop) (uid : String) (roles : List Role)
       refine .call _ _ hcr ?_
       intro r2
       cases r2 <;> first | exact hrest | exact .ret _
-    | role cur =>
+    | role cur rv =>
       simp only []
       split
       · exact .ret _
@@ -232,9 +232,9 @@ theorem reconcileXRD_appliesOnly (name : String) (s : Store) :
 
 def BindingWrites (W : Binding → Prop) : Req → Prop
   | .createBinding b => W b
-  | .updateBinding b => W b
+  | .updateBinding b _ => W b
   | .createRole _ => False
-  | .updateRole _ => False
+  | .updateRole _ _ => False
   | _ => True
 
 /-- the one binding the reconciler may write for revision `name` on store `s` -/
@@ -269,7 +269,7 @@ theorem reconcileBinding_appliesOnly (name : String) (s : Store) :
       refine .call _ _ hW ?_
       intro r2
       cases r2 <;> exact .ret _
-    | binding cur =>
+    | binding cur rv =>
       simp only []
       split
       · exact .ret _
